@@ -15,3 +15,4 @@ import Hifi.Props.C17
 import Hifi.Props.C08
 import Hifi.Props.C11
 import Hifi.Props.C13Duration
+import Hifi.Props.C09
